@@ -6,7 +6,18 @@ from contracts import lnodes_shapes, spec
 from pyvc.contract import Registry
 
 
+_CACHE = {}
+
+
 def build(tier="quick"):
+    if tier in _CACHE:
+        return _CACHE[tier]
+    reg = _build(tier)
+    _CACHE[tier] = reg
+    return reg
+
+
+def _build(tier="quick"):
     reg = Registry(spec_globals=vars(spec))
     reg.shapes.update(lnodes_shapes.SHAPES)
     reg.opaque_specs[spec.ev] = "real"
@@ -16,6 +27,7 @@ def build(tier="quick"):
     from contracts import c_lnodes
 
     c_lnodes.register(reg)
+    c_lnodes.register_dtypes(reg)
     from contracts import c_symbols
 
     c_symbols.register(reg)
@@ -25,4 +37,19 @@ def build(tier="quick"):
     from contracts import c_options
 
     c_options.register(reg)
+    from contracts import c_elementtables
+
+    c_elementtables.register(reg)
+    c_elementtables.register_quadrature(reg)
+    c_elementtables.register_mte(reg)
+    from contracts import c_analysis
+
+    c_analysis.register(reg)
+    c_analysis.register_representation(reg)
+    from contracts import c_formatter
+
+    c_formatter.register(reg)
+    from contracts import c_factorization
+
+    c_factorization.register(reg)
     return reg
